@@ -60,7 +60,7 @@ func oracleC02(l *harness.Live) (c02Info, *harness.Failure) {
 	var info c02Info
 	want, err := refNodes(l)
 	if err != nil {
-		return info, harness.Failf("reference evaluates", err.Error(), "generator left the reference fragment")
+		return info, refFailure(err)
 	}
 	info.want = want.IDs()
 	ids, f := engineSelect(l)
@@ -145,7 +145,9 @@ func c02Doc() xgen.DocOpts {
 
 func TestC02Rapid(t *testing.T) {
 	runRapid(t, uC02, func(rt *rapid.T) {
-		doc := xgen.Doc(rt, c02Doc())
+		o := c02Doc()
+		shape := xgen.Shape(rt, &o)
+		doc := xgen.Doc(rt, o)
 		ctx := xgen.Context(rt, doc, 5)
 		g := xgen.NewG(rt, doc)
 		g.ElNames = xgen.ElNames2
@@ -163,6 +165,7 @@ func TestC02Rapid(t *testing.T) {
 			}
 			harness.Report(rt, uC02, l, f)
 		}
+		info.labels = append(info.labels, shape)
 		uC02.Case(harness.Mix(doc.Hash(), uint64(ctx.ID), harness.Hash64(l.Expr)), info.nontrivial, info.labels, func() interface{} {
 			return l.Sample("result", describe(doc, info.want))
 		})
